@@ -209,9 +209,11 @@ func genStep(rt *rapid.T, p *Profile, cfg *Config, i int) Step { //nolint:cyclop
 		for j := 0; j < k; j++ {
 			st.P = append(st.P, peer("p"))
 		}
+		st.RespLost = rapid.IntRange(0, 11).Draw(rt, "respLost") == 0
 	case "ChannelBind":
 		st.P = []int{peer("p")}
 		st.Ch = rapid.OneOf(rapid.IntRange(0, 2), rapid.IntRange(0, len(ChannelSlots)-1)).Draw(rt, "ch")
+		st.RespLost = rapid.IntRange(0, 11).Draw(rt, "respLost") == 0
 	case "Send":
 		st.P = []int{peer("p")}
 		st.N = genLen(rt, p, "n")
@@ -339,7 +341,7 @@ func genFragment(rt *rapid.T, p *Profile, cfg *Config) []Step {
 			Step{Op: "Sleep", C: c, Rel: "perm+", P: []int{peer}, N: margin, Life: -1}, data("Send"), data("PeerData"))
 	case "chan":
 		ct := int(cfg.chanTimeout().Seconds())
-		out = append(out, Step{Op: "ChannelBind", C: c, P: []int{peer}, Ch: ch, Life: -1}, part(ct),
+		out = append(out, Step{Op: "ChannelBind", C: c, P: []int{peer}, Ch: ch, Life: -1, RespLost: rapid.IntRange(0, 3).Draw(rt, "flost") == 0}, part(ct),
 			Step{Op: "ChannelBind", C: c, P: []int{peer}, Ch: ch, Life: -1},
 			Step{Op: "Sleep", C: c, Rel: "chan-", Ch: ch, P: []int{peer}, N: margin, Life: -1}, data("ChannelData"), data("PeerData"),
 			Step{Op: "Sleep", C: c, Rel: "chan+", Ch: ch, P: []int{peer}, N: margin, Life: -1}, data("ChannelData"), data("PeerData"))
